@@ -13,7 +13,9 @@ EXPLANATION = (
     'keep-test type-checks in a two-domain (log-probability / probability) typing and is one of the normal forms '
     'exp(s) > (use_beta ? exp(best)*beta : lowest) or s > (use_beta ? best+log(beta) : lowest), with `best` read '
     'before any pop; the option names pruning_size/beta/use_beta reach struct config unchanged from the CLI flags '
-    '(use_beta = not --disable-beta). Float comparison at the exact threshold is not decided.')
+    '(use_beta = not --disable-beta). Float comparison at the exact threshold is not decided.'
+    ' The per-word candidate queues must be max-heaps (top() is the best remaining tag).'
+)
 TRUSTED = ['clang-14 front end', 'CPython ast', 'sa/pyx.py normaliser', 'rule table DESIGN.md C16']
 
 
